@@ -7,10 +7,11 @@
 // source and against where an always-illegal lexeme was inserted) and
 // recomputes line number, line text and display column from the whole byte
 // stream (oracle_test.go); the command's stderr is parsed and must satisfy
-//   (1) printed line number = 1-based line of the offending byte,
-//   (2) the quoted text is a piece of that line containing the offending
-//       character (cut at character boundaries),
-//   (3) the caret's terminal column lies under the offending character.
+//
+//	(1) printed line number = 1-based line of the offending byte,
+//	(2) the quoted text is a piece of that line containing the offending
+//	    character (cut at character boundaries),
+//	(3) the caret's terminal column lies under the offending character.
 package c17
 
 import (
@@ -380,6 +381,9 @@ func genQuerySource(t *rapid.T, module bool) string {
 		rec.Class("query/base/generated-program-not-parseable")
 	}
 	stages := rapid.SampledFrom([]int{1, 2, 3, 5, 8, 20, 60}).Draw(t, "stages")
+	if rapid.IntRange(0, 39).Draw(t, "huge") == 0 {
+		stages = 600 // a source of more than 16 KiB
+	}
 	return buildQuery(p, stages, chars, eol, module, brk)
 }
 
@@ -399,7 +403,7 @@ func genQueryCase(t *rapid.T, modes []string) queryCase {
 		c = insertLexeme(src, at, rapid.SampledFrom(illegalLexemes).Draw(t, "lexeme"))
 	case "misplaced":
 		at := bounds[biasedIndex(t, "bound", len(bounds))]
-		tok := rapid.SampledFrom([]string{")", "}", "]", "|", ",", "as", "end", "then", "else", "\"s\"", "\"漢字\"", "123", ".x", "$v", "def", ";", ":", "(", "[", "{", "and", "//", "?//", "@text", "..", "reduce", "catch"}).Draw(t, "token")
+		tok := rapid.SampledFrom([]string{")", "}", "]", "|", ",", "as", "end", "then", "else", "\"s\"", "\"漢字\"", "123", ".x", "$v", "def", ";", ":", "(", "[", "{", "and", "//", "?//", "@text", "..", "reduce", "catch", "m::f", "$m::v", "$__loc__", "import", "?", "|=", "-"}).Draw(t, "token")
 		c.Src = src[:at] + " " + tok + " " + src[at:]
 	case "truncate":
 		cut := rapid.IntRange(1, len(src)).Draw(t, "cut")
@@ -565,7 +569,7 @@ func TestC17(t *testing.T) {
 	// (E2) the offending byte swept over the offsets where the command's
 	// windows change (file: skip loop at 12288 + k*16384 and 20480 + k*16384;
 	// pipe: buffer reset after 16 KiB).
-	radius, step := 14, 1
+	radius, step := 10, 1
 	bases := []int{12288, 16384, 20480, 28672, 32768, 36864, 49152, 53248}
 	if rec.Thorough() {
 		radius = 90
@@ -633,7 +637,7 @@ func TestC17(t *testing.T) {
 	rec.Exhaustive(fmt.Sprintf("json: offending byte at every offset within %d of the window boundaries %v (and every 997th offset up to 80000) x 6 layouts x LF/CRLF/CR x pipe/file", radius, bases), complete)
 
 	// (R) random JSON cases
-	rec.Rapid(t, "json", rec.Scale(9000, 110000), func(t *rapid.T) {
+	rec.Rapid(t, "json", rec.Scale(7000, 110000), func(t *rapid.T) {
 		c := genJSONCase(t)
 		rec.Eval()
 		rec.Sample(c)
@@ -677,7 +681,7 @@ func TestC17(t *testing.T) {
 	}
 	rec.Exhaustive("yaml: 18 fault kinds x 3 positions x 2 key forms x 2 alphabets x 0/2 preceding documents x LF/CRLF/CR x pipe/file/stdin-file", complete)
 
-	rec.Rapid(t, "yaml", rec.Scale(4000, 50000), func(t *rapid.T) {
+	rec.Rapid(t, "yaml", rec.Scale(3200, 50000), func(t *rapid.T) {
 		c := yamlCase{
 			Mode:  rapid.SampledFrom([]string{"pipe", "pipe", "file", "file", "stdinfile"}).Draw(t, "mode"),
 			Slurp: rapid.IntRange(0, 7).Draw(t, "slurp") == 0,
@@ -763,7 +767,7 @@ func TestC17(t *testing.T) {
 	}
 	rec.Exhaustive("query: every truncation and 16 always-illegal lexemes at every lexeme boundary of 3 multi-line programs x LF/CRLF/CR (library; every 7th also through the command)", complete)
 
-	rec.Rapid(t, "query-lib", rec.Scale(60000, 1500000), func(t *rapid.T) {
+	rec.Rapid(t, "query-lib", rec.Scale(36000, 1500000), func(t *rapid.T) {
 		c := genQueryCase(t, []string{"lib"})
 		rec.Eval()
 		rec.Sample(c)
@@ -771,7 +775,7 @@ func TestC17(t *testing.T) {
 			t.Fatalf("%s", rec.Fail("query-lib", c, "%s", m))
 		}
 	})
-	rec.Rapid(t, "query-cli", rec.Scale(5000, 60000), func(t *rapid.T) {
+	rec.Rapid(t, "query-cli", rec.Scale(4000, 60000), func(t *rapid.T) {
 		c := genQueryCase(t, []string{"arg", "arg", "file", "file", "import", "include", "home"})
 		rec.Eval()
 		rec.Sample(c)
